@@ -175,6 +175,8 @@ def build_message(P, ids, tgt, srcs, new_ids, addr=None):
         return M.story_delete(srcs)
     if op == 'roStorySend':
         body = [T('p', 'sent'), M.story_item('si')]
+        if P.get('empty_body'):
+            body = []          # <storyBody/>: a story without script or items yet
         if P.get('long_body'):
             body = [M.story_item('si1'), T('p', 'one'), M.story_item('si2'), T('p', None), M.story_item('si3'), T('p', 'two')]
         return M.story_send(srcs[0], body=body,
